@@ -1,4 +1,5 @@
 import AriVerif.Gen.Pool
+import AriVerif.Props.C04
 /-!
 # C18 — adapter calls run on the worker pool; pool of one is strictly sequential (size part)
 
@@ -34,3 +35,81 @@ theorem c18_size_pos (size cpu : Option Int) (hc : ∀ c, cpu = some c → 1 ≤
   cases size <;> cases cpu <;> simp_all <;> (try split) <;> omega
 
 end Ari
+
+namespace Ari.Conc
+open Ari
+
+/-- **C18 (at most `n` requests are being handled).** `running` counts exactly the started, unfinished tasks
+    and never exceeds the pool size. -/
+theorem c18_bound (n : Nat) (s : PState) (h : PReach n s) :
+    s.running ≤ n ∧ s.running = (s.tasks.filter (·.pc.isActive)).length ∧ s.n = n := by
+  have inv := h.inv
+  obtain ⟨acts, hr⟩ := h
+  have hn : s.n = n := prun_n acts _ s hr
+  rw [PPc.isActive_eq]
+  exact ⟨hn ▸ inv.bound, inv.running, hn⟩
+
+/-- **C18 (a pool of one is strictly sequential).** With one worker at most one task is active, so adapter
+    invocations never overlap. -/
+theorem c18_one_sequential (s : PState) (h : PReach 1 s) (i j : Nat) (ti tj : PTask)
+    (hi : s.tasks[i]? = some ti) (hj : s.tasks[j]? = some tj)
+    (ai : ti.pc.isActive = true) (aj : tj.pc.isActive = true) : i = j := by
+  obtain ⟨hb, hr, -⟩ := c18_bound 1 s h
+  apply Classical.byContradiction
+  intro hne
+  have := two_le_filter_length (·.pc.isActive) s.tasks i j ti tj hi hj ai aj hne
+  omega
+
+/-- **C18 (arrival order).** Tasks are started in submission order, for every pool size: the k-th task to
+    start is the k-th submitted, and the work queue holds exactly the not yet started ones, in order. -/
+theorem c18_fifo_start (n : Nat) (s : PState) (h : PReach n s) :
+    s.started = List.range s.started.length ∧
+    s.workQ = (List.range s.tasks.length).drop s.started.length :=
+  ⟨h.inv.started, h.inv.workQ⟩
+
+/-- **C18 (the reader is never blocked by the pool).** Handing a request to the pool is always possible,
+    whatever the workers are doing … -/
+theorem c18_submit_nonblocking (s : PState) (rid m : String) (a : Args) :
+    (pstep s (.submit rid m a)).isSome := by
+  simp [pstep]
+
+/-- … and a free worker always takes the oldest waiting request, whatever the other tasks are doing (even if
+    all of them are blocked inside adapter calls). -/
+theorem c18_free_worker_takes (s : PState) (k : Nat) (rest : List Nat) (t : PTask)
+    (hq : s.workQ = k :: rest) (ht : s.tasks[k]? = some t) (hp : t.pc = .inPool) (hf : s.running < s.n) :
+    (pstep s (.start k)).isSome := by
+  simp [pstep, ht, hp, hq, hf]
+
+/-- **C18 (adapter methods run in pool tasks only).** The only steps with an adapter-call effect are the
+    `callBegin` / `callEnd` steps of a pool task (the reader's `submit` has no effect at all). -/
+theorem c18_calls_only_in_tasks (s s' : PState) (a : PAct) (effs : List PEff) (h : pstep s a = some (s', effs))
+    (c : Call) (hc : PEff.adapterBegin c ∈ effs ∨ PEff.adapterEnd c ∈ effs) :
+    ∃ k, a = .callBegin k ∨ ∃ o, a = .callEnd k o := by
+  cases a with
+  | submit rid m args => simp [pstep] at h; obtain ⟨-, rfl⟩ := h; simp at hc
+  | start k =>
+    exfalso
+    simp only [pstep] at h
+    split at h
+    · split at h
+      · split at h
+        · simp only [Option.some.injEq] at h
+          rcases advance_cases _ k _ with ⟨c', _, he⟩ | ⟨line, _, he⟩ | ⟨_, _, he⟩ <;>
+            (rw [he] at h; cases h; simp at hc)
+        · cases h
+      · cases h
+    · cases h
+  | callBegin k => exact ⟨k, .inl rfl⟩
+  | callEnd k o => exact ⟨k, .inr ⟨o, rfl⟩⟩
+  | put k =>
+    exfalso
+    simp only [pstep] at h
+    split at h
+    · split at h
+      · simp only [Option.some.injEq, Prod.mk.injEq] at h
+        obtain ⟨-, rfl⟩ := h
+        simp at hc
+      · cases h
+    · cases h
+
+end Ari.Conc
